@@ -242,6 +242,11 @@ def register(reg):
             own(c.st, c.self)
             interest(c.st, F(c, c.self, "H11._network_stream"))
 
+        def requires(self, c):
+            # invariant of an exchange in flight: the gate cleared the expiry (obligation
+            # starting_a_request_clears_expiry of handle_async_request)
+            return [("no_expiry_while_active", c.new(c.self, "H11._expire_at").none)]
+
         def ensures(self, c):
             s = c.self
             h = c.new(s, "H11._h11_state")
@@ -782,9 +787,11 @@ def register(reg):
         def setup(self, c):
             conn = c.new(c.self, "BS._connection")
             c.eng.assume(c.st, conn.t > 0)
-            # while the body stream is open its connection is in this exchange
-            if True:
-                c.st.ghost["maybe_owned"] = conn
+            # while the body stream is open its connection's exchange is in flight: this flow owns it
+            # and the in-flight invariant (expiry cleared by the gate) holds
+            closed = c.new(c.self, "BS._closed").t
+            c.eng.assume(c.st, z3.Implies(z3.Not(closed), c.new(conn, "H11._expire_at").none))
+            own(c.st, conn)
 
         def ensures(self, c):
             return [("marks_closed", ("C01", "C05"), F(c, c.self, "BS._closed"))]
